@@ -7,7 +7,8 @@ from typing import Any
 
 from sa.kern import make_evaluator, py_calls
 from sa.report import Ctx
-from sa.srcmodel import desugared, FuncInfo, Module, func_body
+from sa.srcmodel import (desugared, FuncInfo, Module, func_body,
+                         inline_locals)
 from sa.symterm import Env, Poly, Unsupported
 
 BP = "moptipyapps.binpacking2d."
@@ -943,6 +944,33 @@ def _bound(repo: Any, fi: FuncInfo, e: ast.expr,
         d = _local_def(fi, e.id)
         if d is not None:
             return _bound(repo, fi, d, ren)
+        # m = a; if b > m: m = b   (max written with a statement)
+        defs = [n for n in ast.walk(fi.node)
+                if isinstance(n, (ast.Assign, ast.AnnAssign)) and getattr(
+                    n, "value", None) is not None and isinstance(
+                    n.targets[0] if isinstance(n, ast.Assign)
+                    else n.target, ast.Name) and (
+                    n.targets[0] if isinstance(n, ast.Assign)
+                    else n.target).id == e.id]
+        if len(defs) == 2 and all(isinstance(d_.value, ast.Name)
+                                  for d_ in defs):
+            a_, b_ = defs[0].value.id, defs[1].value.id
+            for iff in ast.walk(fi.node):
+                if isinstance(iff, ast.If) and not iff.orelse and len(
+                        iff.body) == 1 and iff.body[0] is defs[1]:
+                    for kind, va, vb in (("max", 1, 2), ("max", 2, 1),
+                                         ("max", 3, 3)):
+                        t_ = _cmp_value(iff.test, {e.id: va, a_: va,
+                                                   b_: vb})
+                        if t_ is None or (vb if t_ else va) != max(va, vb):
+                            break
+                    else:
+                        parts = [_bound(repo, fi, defs[0].value, ren),
+                                 _bound(repo, fi, defs[1].value, ren)]
+                        if all(isinstance(x, tuple) and x[0] == "q"
+                               for x in parts):
+                            return ("max", frozenset(
+                                x[1] for x in parts))
     if isinstance(e, ast.Call) and isinstance(e.func, ast.Name) and \
             e.func.id in ("max", "min") and not e.keywords:
         parts = [_bound(repo, fi, a, ren) for a in e.args]
@@ -1019,6 +1047,9 @@ def _compact_domains(ctx: Ctx) -> None:
         elif isinstance(a, ast.Call) and ast.unparse(a) == \
                 f"len({cparams[-1]})":
             q = "rows"
+        elif isinstance(a, ast.Name) and ast.unparse(inline_locals(
+                new.node, a)) == f"len({cparams[-1]})":
+            q = "rows"      # n_rows = len(matrix) held in a local
         if q is not None and q not in c_rng:
             c_rng[q] = (_bound(repo, new, c.args[2], ren_c),
                         _bound(repo, new, c.args[3], ren_c), c)
@@ -1358,6 +1389,17 @@ def _compact(ctx: Ctx) -> None:
         r_problems.append("from_compact_str does not have exactly one "
                           "returning path outside its loop")
     # ================================================================ rules
+    shape_unknown = any("returning path" in p_ or "straight-line" in p_
+                        for p_ in r_problems + w_problems)
+
+    def ob2(fi_: Any, node_: Any, ok_: Any, detail_: str, **kw_: Any) -> None:
+        """When the writer / reader is not written as one loop between
+        straight-line code, nothing is claimed about its fields."""
+        if shape_unknown and not ok_:
+            detail_ = ("the structure of to_compact_str / from_compact_str "
+                       "is not recognised (" + "; ".join(
+                           r_problems + w_problems)[:200] + ")")
+        ctx.ob("D19.2", fi_, node_, ok_, detail_, **kw_)
     r_names = [None if k not in r_head else "ok" for k in range(4)]
     head_w = head or []
     ok_head = head_w[:4] == ["name", "n_different_items", "bin_width",
@@ -1380,7 +1422,7 @@ def _compact(ctx: Ctx) -> None:
             bind.append("the rows read from the string are not collected "
                         "into the matrix passed to the constructor")
     # the count field (n_different_items) drives the reader's loop
-    ctx.ob("D19.2", wr, wr.node, ok_head and not w_problems and w_loop_ok,
+    ob2(wr, wr.node, ok_head and not w_problems and w_loop_ok,
            f"compact string head fields: writer {head_w}, reader reads "
            "fields 0, 2, 3 into name / bin_width / bin_height and field 1 "
            "as the item count" if ok_head else
@@ -1413,7 +1455,7 @@ def _compact(ctx: Ctx) -> None:
     ok_items = ok_w_items and r_cells_ok and [
         cols["IDX_WIDTH"], cols["IDX_HEIGHT"], cols["IDX_REPETITION"]] == [
         0, 1, 2]
-    ctx.ob("D19.2", wr, wr.node, ok_items,
+    ob2(wr, wr.node, ok_items,
            f"per-item fields: writer {[list(f) for f in w_forms]}, reader "
            "row = [cell 0, cell 1, cell 2 or 1]" if ok_items else
            f"per-item fields: writer {[list(f) for f in w_forms]}, reader "
@@ -1422,11 +1464,11 @@ def _compact(ctx: Ctx) -> None:
     ok_sep = join_sep is not None and bool(split_seps) and all(
         x == join_sep for x in split_seps) and len(item_sep) == 1 and \
         cell_seps == item_sep and join_sep not in item_sep
-    ctx.ob("D19.2", rd, rd.node, bool(ok_sep),
+    ob2(rd, rd.node, bool(ok_sep),
            f"writer joins with {join_sep!r} / {sorted(item_sep)}, reader "
            f"splits on {sorted(set(split_seps))} / {sorted(cell_seps)}",
            construct="compact separators")
-    ctx.ob("D19.2", rd, rd.node, item_idx_ok,
+    ob2(rd, rd.node, item_idx_ok,
            "item fields are read from positions 4 .. n_different_items+3",
            construct="compact item positions")
     # ---- multiplicity default
@@ -1510,13 +1552,13 @@ def _compact(ctx: Ctx) -> None:
             len([t for t in toks if t[0] != "sep"]) == 2
             for _g, toks in w_alts):
         ok_rep_r = False          # the writer omits a field nobody defaults
-    ctx.ob("D19.2", rd, rd.node, ok_rep_w and ok_rep_r,
+    ob2(rd, rd.node, ok_rep_w and ok_rep_r,
            "the writer omits the multiplicity exactly when it is 1 and the "
            "reader supplies 1 exactly when the field is missing"
            if ok_rep_w and ok_rep_r else
            f"multiplicity default broken: writer ok={ok_rep_w}, reader ok="
            f"{ok_rep_r}", construct="compact multiplicity default")
-    ctx.ob("D19.2", rd, rd.node, not bind,
+    ob2(rd, rd.node, not bind,
            "name, bin width and bin height are passed to the constructor "
            "parameters they were written from; every decoded row is "
            "appended to the matrix" if not bind else "; ".join(bind),
